@@ -237,7 +237,7 @@ static void exec_layered(void)
   snprintf(mc_case_sig, sizeof mc_case_sig, "%s", sig);
   mc_log("%s\n", sig);
   snprintf(p, sizeof p, "%s/cfg.conf", ldir0); unlink(p);
-  const char *c0 = "n=Yes Please\n[A]\nx=TRUE # tc\n", *c1 = "[A]\nx=0x10\nxy= 7\n", *c2 = "# cb\nn=No\n[B]\ny=1\n  2\n";
+  const char *c0 = "n=Yes Please\n[A]\nx=TRUE # tc\n", *c1 = "[A]\nx=0x10\nxy= 7\n[[C]]\nq=1\n", *c2 = "# cb\nn=No\n[B]\ny=1\n  2\n";   /* [[C]]: a section whose stored name is itself bracketed */
   if (l_files & 1) mc_write_file(p, c0, strlen(c0));
   snprintf(p, sizeof p, "%s/cfg.conf.d/10-a.conf", ldir0); unlink(p);
   if (l_files & 2) mc_write_file(p, c1, strlen(c1));
